@@ -19,6 +19,16 @@ inline std::vector<const FmtEntry *> &all_entries ()
 	return d ;
 }
 
+// sample-granular at container level: the data section is a plain array of fixed-width samples, so
+// sf_read_raw / sf_write_raw and SFM_RDWR are meaningful (PAF-24 packs blocks, SDS packs 7-bit bytes)
+inline bool is_granular (int format)
+{	const Codec *c = codec_of (format) ; int maj = format & SF_FORMAT_TYPEMASK ;
+	if (!c || !c->granular) return false ;
+	if (maj == SF_FORMAT_SDS) return false ;
+	if (maj == SF_FORMAT_PAF && c->subtype == SF_FORMAT_PCM_24) return false ;
+	return true ;
+}
+
 // nominal codec block length in frames, for the length generator (edges) - not an oracle
 inline int nominal_block (int format, int ch = 1, int rate = 44100)
 {	int maj = format & SF_FORMAT_TYPEMASK, sub = format & SF_FORMAT_SUBMASK ;
